@@ -490,6 +490,7 @@ def check(pid, cfg, tier, seed):
     violations = []   # dicts: kind, assertion, detail, ops, engine, broken
     known_hits = {}
     notes = []
+    flakes = []  # harness deaths that the identical run did not reproduce
     try:
         with open(os.path.join(BUILD, "check-%s.log" % pid), "w") as log:
             with Lock("lock"):
@@ -521,6 +522,15 @@ def check(pid, cfg, tier, seed):
                 for e, corpus_file, tag in runs:
                     budget = e.get(tier, 1) * (e.get("search_factor", 4) if escalate else 1)
                     r = run_engine(e["name"], pid, tier, seed, budget, work, tag, replay=corpus_file)
+                    if r["crashed"]:
+                        # the harness process died (a panic outside the recovered calls, a timeout): a violation must
+                        # be replayable, so the identical run (same seed, same budget) is repeated once; a death that
+                        # does not repeat is recorded in the evidence as an infrastructure flake, not reported
+                        first = r["crashed"]
+                        log.write("harness died, repeating the run: %s\n" % first)
+                        r = run_engine(e["name"], pid, tier, seed, budget, work, tag, replay=corpus_file)
+                        if not r["crashed"]:
+                            flakes.append("%s: harness death not reproduced by the identical run: %s" % (tag, first[:400]))
                     results.append(r)
                     if r["crashed"]:
                         violations.append({"kind": "crash", "assertion": "harness-run", "engine": e["name"], "ops": [],
@@ -646,6 +656,7 @@ def check(pid, cfg, tier, seed):
                 "correspondence_streams": [{"engine": r["engine"], "lines": (r["stats"] or {}).get("ops", 0),
                                             "first_difference": r["diff"] and r["diff"]["op"]} for r in results],
                 "known_findings_hit": sorted(known_hits.keys()),
+                "harness_deaths_not_reproduced": flakes,
                 "exhaustive": False,
             },
             "assumptions": cfg.get("assumptions", []),
